@@ -464,3 +464,14 @@ Theorem C02_translated_p2p_failed_read_keeps_cursor_full : forall hdr accept cur
   GoLiteP2PIngressRefine.code_step hdr accept cur s = ([], cur).
 Proof. exact GoLiteP2PIngressRefine.failed_read_keeps_cursor. Qed.
 Print Assumptions C02_translated_p2p_failed_read_keeps_cursor_full.
+
+(* the range reader behind them (getHeadersFromHeaderStore / getDataFromDataStore), run iteration by iteration with the
+   translated body: asked for (cursor+1, store height) it reads exactly P2PIngress.loop_reads, in that order, and
+   succeeds exactly when the model says no gap is hit — the outcome the iteration above is instantiated with *)
+Theorem C02_translated_p2p_reads_are_loop_reads_full : forall (store : String.string) (cur : N) (s : P2PIngress.psignal),
+  (cur <? P2PIngress.ps_store s) = true ->
+  GoLiteP2PIngressRefine.code_reads store (S (N.to_nat (P2PIngress.ps_store s - cur))) (cur + 1) (P2PIngress.ps_store s) (cur + 1)
+    (GoLiteP2PIngressRefine.fails_of s)
+  = (P2PIngress.loop_reads cur s, negb (P2PIngress.gap_hit cur s)).
+Proof. exact GoLiteP2PIngressRefine.reads_are_loop_reads. Qed.
+Print Assumptions C02_translated_p2p_reads_are_loop_reads_full.
